@@ -102,4 +102,6 @@ class Program(object):
         return out
 
     def source_hash(self, qual):
-        return hashlib.sha1(self.find(qual)[3].encode()).hexdigest()[:12]
+        mod, cls, node, seg = self.find(qual)
+        decos = ''.join('@%s\n' % ast.unparse(d) for d in node.decorator_list)     # the segment starts at `def`
+        return hashlib.sha1((decos + seg).encode()).hexdigest()[:12]
